@@ -303,7 +303,7 @@ class PathEngine:
                 self.__dict__["_prop_depth"] = depth
         return None
 
-    def _closure_dict(self, outer: FuncInfo, name: str) -> Any:
+    def _closure_dict(self, outer: FuncInfo, name: str, _depth: int = 0) -> Any:
         """a closure variable bound exactly once in the enclosing function to a dict display with constant keys
         whose values are plain names (`call_kwargs = {"on_metric": on_metric, ...}`): the display itself, with the
         names as the nested function sees them (free variables)"""
@@ -322,6 +322,30 @@ class PathEngine:
                 return None
             if isinstance(n, ast.Call) and isinstance(n.func, ast.Attribute) and isinstance(n.func.value, ast.Name) and n.func.value.id == name and n.func.attr in MUTATORS:
                 return None
+        if not binds and name in outer.param_names() and _depth < 3:
+            # a parameter of a helper that did not exist when the rules were written, all of whose call sites pass the
+            # same plain name (`_wrap_sync(func, policy, call_options)`): what that name is bound to at the call site(s)
+            pos = outer.positional_params()
+            found = []
+            for caller, call in self.prog._call_sites_by_name().get(outer.name, []):
+                try:
+                    tg = self.prog.resolve_call(call, caller)
+                except AnalysisError:
+                    continue
+                if not any(t.func is outer for t in tg):
+                    continue
+                arg = None
+                if name in pos and pos.index(name) < len(call.args) and not any(isinstance(a, ast.Starred) for a in call.args):
+                    arg = call.args[pos.index(name)]
+                for kw in call.keywords:
+                    if kw.arg == name:
+                        arg = kw.value
+                if not isinstance(arg, ast.Name):
+                    return None
+                found.append(self._closure_dict(caller, arg.id, _depth + 1))
+            if found and all(f is not None and f == found[0] for f in found):
+                return found[0]
+            return None
         if len(binds) != 1 or not isinstance(binds[0], ast.Dict):
             return None
         items = []
@@ -332,6 +356,14 @@ class PathEngine:
                 items.append((("const", k.value), ("free", v.id)))
             elif isinstance(v, ast.Constant):
                 items.append((("const", k.value), ("const", v.value)))
+            elif _only_pure_calls(v):
+                # an expression over the enclosing function's names (`operation or getattr(func, "__name__", None)`):
+                # its term, with those names as the nested function sees them
+                try:
+                    env0 = {n.id: ("free", n.id) for n in ast.walk(v) if isinstance(n, ast.Name) and n.id not in PURE_BUILTINS}
+                    items.append((("const", k.value), self._pure_sym(v, env0, {}, self.cfgs.get(outer))))
+                except AnalysisError:
+                    return None
             else:
                 return None
         return ("dict", tuple(items))
